@@ -153,6 +153,22 @@ def apply_py(A, arr, op):
     raise HarnessError("unknown python op " + f)
 
 
+def lib_outcome(fn):
+    """like pcommon.outcome, but an AttributeError / NotImplementedError raised *inside the library's own Python files* (e.g.
+    highlevel.__getattr__ 'no field named ...') is an ordinary exception of the code under test; only those coming from the
+    emulation (akshim) or the harness propagate as harness errors"""
+    import traceback
+    from vlib.common import REPO
+    try:
+        return P.outcome(fn)
+    except (AttributeError, NotImplementedError) as e:
+        frames = traceback.extract_tb(e.__traceback__)
+        inner = frames[-1].filename if frames else ""
+        if inner.startswith(REPO):
+            return (type(e).__name__, str(e))
+        raise
+
+
 def _value(lay):
     try:
         return M.decode(D.describe(lay))
@@ -177,7 +193,7 @@ def run_python(case):
     if before is None or not _same(before, M.decode(desc)):
         raise HarnessError("a freshly built layout does not read back as the description's value")
     try:
-        kind, res = P.outcome(lambda: apply_py(A, arr, op))
+        kind, res = lib_outcome(lambda: apply_py(A, arr, op))
     except NotImplementedError as e:
         if "not available in the /verif emulation" in str(e):
             return {"discarded": "the call needs a part of awkward._ext that the emulation does not provide (ArrayBuilder, ...)"}
@@ -185,7 +201,7 @@ def run_python(case):
     P.check_purity(buffers, snaps, label)
     tags = ["part:python", "pyop:" + op["f"], "pyoutcome:" + ("ok" if kind == "ok" else "raised")]
     if kind == "ok" and isinstance(res, (A.Array, A.Record)):
-        k2, _ = P.outcome(lambda: (A.to_list(res), str(res)))
+        k2, _ = lib_outcome(lambda: (A.to_list(res), str(res)))
         tags.append("pyresult_walk:" + ("ok" if k2 == "ok" else "raised"))
     after = _value(arr.layout)
     if not _same(before, after):
@@ -199,6 +215,5 @@ def run_python(case):
 def pre_exclude_python(case):
     spec = catalogue_spec(case["pyop"])
     if spec["op"].startswith("python:"):
-        # the ops that recurse through every node are subject to the n-d zero-dimension finding as well
-        return "numpy_nd_zero_inner_dim" if K.has_nd_zero(case["desc"]) and case["pyop"]["f"] not in ("to_list", "to_json", "str", "type", "copy") else None
+        return None
     return K.pre_exclude(spec, case["desc"])
